@@ -1,12 +1,24 @@
 // C17 — observed addresses are advertised only with enough independent observers.
 //
-// Operation-level simulation: the real observedaddrs.Manager (NewManager/Start/Close, its event
-// handler and worker goroutines, the NAT-type ticker on the bubble clock) on the real event bus,
-// over a stub network.Network (listen addresses, notifiee registry) and stub network.Conn values
-// (LocalMultiaddr/RemoteMultiaddr/IsClosed). One harness task issues the history; the Manager's
-// goroutines run free inside the bubble and are observed only at quiescent instants
-// (simrt.WaitIdle) — in the paced stratum after every event, in the burst stratum after a burst
-// (plus subset-only samples in the middle of a burst, which must hold at every instant).
+// The real observedaddrs.Manager (NewManager/Start/Close, its event handler and worker, the NAT-type
+// ticker on the bubble clock) on the real event bus, over a stub network.Network (listen addresses,
+// notifiee registry) and stub network.Conn values (LocalMultiaddr/RemoteMultiaddr/IsClosed). Both
+// packages are instrumented (props.py: instrument=[observedaddrs, eventbus]): the Manager's goroutines
+// are tasks of the simulator and every lock, channel operation and select in them is a scheduling
+// point decided by the schedule stream; in the burst and race strata every stub callback yields too.
+//
+// Strata (drawn first):
+//   - paced: one harness task; after every event simrt.WaitIdle(), then the exact comparison.
+//   - burst: one harness task issues 2-45 events without waiting (a third of the bursts with the worker
+//     held inside a stub callback so that the observation queue overflows); subset relation only,
+//     sampled in the middle of the burst, with the queue held, and at quiescence after it.
+//   - race: identify-completed for connection c and the close of c (mark closed + Disconnected) are
+//     issued back to back from two tasks, 1-3 such pairs at once, optionally a third task reading
+//     Addrs/AddrsFor meanwhile; on purpose the pair's (local, observed) address first gets
+//     threshold-1 live observer groups. The schedule decides e.g. whether the closer runs between
+//     the worker's checks and its locked write. Subset relation at quiescence (and for the reader).
+//
+// In every stratum the epilogue closes every connection and nothing may remain reported.
 //
 // Reference model (written from the property statement, see model.count): for a local listen
 // address L and an external thin-waist address X,
@@ -80,7 +92,13 @@
 //	M17 AddrsFor uses threshold 1                                                 C17/reported-not-allowed/below-threshold
 //	M18 replacement removes from the wrong local waist                            C17/reported-not-allowed/replaced-report-counted
 //
+//	M19 IsClosed guard moved out of the lock, to the top of shouldRecordObservation   C17/reported-not-allowed/closed-connection-counted, C17/leak-after-all-closed
+//	    (seeded change; needs check -> close + Disconnected -> locked write)           race stratum, also burst stratum once instrumented; missed by the
+//	                                                                                   former operation-level build whose goroutines ran free
+//
 // Missed: none. Not tried because equivalent: dropping the "same observation again" early return (remove + add nets to zero).
+// M1-M18 were re-run through the instrumented path (VERIF_REPO worktree, 4 workers, 12 s): all caught. In the
+// burst and race strata the <why> label is less specific (several counterfactuals can explain one address).
 package c17
 
 import (
@@ -101,6 +119,7 @@ import (
 
 	"verifsim/harness/common"
 	"verifsim/simrt"
+	"verifsim/simsync"
 )
 
 func TestSim(t *testing.T) { common.Main(t, common.Harness{Property: "C17", Run: run}) }
@@ -211,14 +230,33 @@ type stubConn struct {
 	gate         chan struct{} // plug connection: LocalMultiaddr blocks the caller (the worker) until the gate opens
 }
 
+// stubYield makes every callback of the stubs a scheduling point (burst and race strata): with the
+// instrumented build the Manager's goroutines are tasks of the simulator, so another task (a closer)
+// can be scheduled between any two steps of the worker that is recording an observation.
+// Runs are sequential within a process, so a package variable set by run() is enough.
+var stubYield bool
+
+func yield(site string) {
+	if stubYield {
+		simrt.Yield(site)
+	}
+}
+
 func (c *stubConn) LocalMultiaddr() ma.Multiaddr {
 	if c.gate != nil {
-		<-c.gate
+		simrt.Recv("stub.gate", (<-chan struct{})(c.gate))
 	}
+	yield("stub.LocalMultiaddr")
 	return c.local
 }
-func (c *stubConn) RemoteMultiaddr() ma.Multiaddr { return c.remote }
-func (c *stubConn) IsClosed() bool                { c.isClosedN.Add(1); return c.closed.Load() }
+func (c *stubConn) RemoteMultiaddr() ma.Multiaddr { yield("stub.RemoteMultiaddr"); return c.remote }
+func (c *stubConn) IsClosed() bool {
+	c.isClosedN.Add(1)
+	yield("stub.IsClosed")
+	v := c.closed.Load()
+	yield("stub.IsClosed+")
+	return v
+}
 func (c *stubConn) ID() string                    { return fmt.Sprintf("c%d", c.id) }
 func (c *stubConn) String() string                { return fmt.Sprintf("c%d", c.id) }
 
@@ -231,9 +269,11 @@ type stubNet struct {
 
 // fresh slices on every call, like the swarm: the Manager appends to and overwrites the result
 func (n *stubNet) ListenAddresses() []ma.Multiaddr {
+	yield("stub.ListenAddresses")
 	return append([]ma.Multiaddr(nil), n.listen...)
 }
 func (n *stubNet) InterfaceListenAddresses() ([]ma.Multiaddr, error) {
+	yield("stub.InterfaceListenAddresses")
 	return append([]ma.Multiaddr(nil), n.iface...), nil
 }
 func (n *stubNet) Notify(f network.Notifiee) { n.notifiees = append(n.notifiees, f) }
@@ -372,7 +412,10 @@ func run(t *testing.T, tape *simrt.Tape) *common.Outcome {
 	g := simrt.Gen{S: tape.G}
 	o := &common.Outcome{}
 
-	burst := g.Weighted(3, 2) == 1 // stratum first
+	stratum := g.Weighted(3, 2, 3) // stratum first: 0 paced, 1 burst, 2 race
+	burst, race := stratum == 1, stratum == 2
+	stubYield = stratum != 0
+	defer func() { stubYield = false }()
 	thresh := []int{4, 2, 3, 1}[g.Weighted(3, 3, 1, 1)]
 	var entries []listenEntry
 	for i, e := range listenMenu {
@@ -418,7 +461,7 @@ func run(t *testing.T, tape *simrt.Tape) *common.Outcome {
 		sn.iface = append(sn.iface, c)
 		m.others = append(m.others, localAddr{text: "/p2p-circuit", addr: c})
 	}
-	o.Logf("stratum=%s thresh=%d ops=%d", map[bool]string{false: "paced", true: "burst"}[burst], thresh, nOps)
+	o.Logf("stratum=%s thresh=%d ops=%d", []string{"paced", "burst", "race"}[stratum], thresh, nOps)
 	for _, a := range sn.listen {
 		o.Logf(" listen %s", a)
 	}
@@ -585,8 +628,11 @@ func run(t *testing.T, tape *simrt.Tape) *common.Outcome {
 			mode := counting{ever: !exact}
 			nowAllowed := map[string]bool{}
 			for _, l := range m.locals {
-				cnt := m.count(mode, l.twKey)
+				// the Manager is asked first, the model is read afterwards: while other tasks run (samples in the
+				// middle of a race) reports are added to the model before they are emitted and a connection stops
+				// counting in the model only after Disconnected has returned, so the later model view is the superset
 				got := mgr.AddrsFor(l.addr)
+				cnt := m.count(mode, l.twKey)
 				checkList(fmt.Sprintf("%s AddrsFor(%s)", at, l.text), l, got, cnt, thresh, exact)
 				if exact {
 					fmt.Fprintf(sig, "F%s=%v;", l.text, got)
@@ -622,7 +668,8 @@ func run(t *testing.T, tape *simrt.Tape) *common.Outcome {
 			}
 			for _, l := range m.others {
 				// not a listen address: no report on such a connection counts, so nothing can be activated for it
-				checkList(fmt.Sprintf("%s AddrsFor(%s)", at, l.text), l, mgr.AddrsFor(l.addr), m.count(mode, l.twKey), thresh, exact)
+				got := mgr.AddrsFor(l.addr)
+				checkList(fmt.Sprintf("%s AddrsFor(%s)", at, l.text), l, got, m.count(mode, l.twKey), thresh, exact)
 			}
 			for k := range prevAllowed {
 				if !nowAllowed[k] {
@@ -661,14 +708,20 @@ func run(t *testing.T, tape *simrt.Tape) *common.Outcome {
 			}
 			return entries[0]
 		}
+		nGroups := func(v6 bool) int { return map[bool]int{false: 6, true: 4}[v6] }
+		groupName := func(v6 bool, gi int) string {
+			if !v6 {
+				return fmt.Sprintf("4/1.2.3.%d", 1+gi%6)
+			}
+			return fmt.Sprintf("6/2001:db8:a:%x00::/56", gi%4)
+		}
 		remoteFor := func(v6 bool, gi int) (ip, group string) {
 			if !v6 {
-				ip = fmt.Sprintf("1.2.3.%d", 1+gi%6)
-				return ip, "4/" + ip
+				return fmt.Sprintf("1.2.3.%d", 1+gi%6), groupName(v6, gi)
 			}
 			p := gi % 4 // /56 = 2001:db8:a:0p00::/56 ; subnet byte and host vary inside it
 			ip = fmt.Sprintf("2001:db8:a:%x%02x::%x", p, 1+g.Int(2), 1+g.Int(2))
-			return ip, fmt.Sprintf("6/2001:db8:a:%x00::/56", p)
+			return ip, groupName(v6, gi)
 		}
 		openConn := func(e listenEntry, lw tw, gi int, how string) *mconn {
 			rip, group := remoteFor(lw.v6, gi)
@@ -715,10 +768,10 @@ func run(t *testing.T, tape *simrt.Tape) *common.Outcome {
 				return lw, "outbound-from-listen-socket"
 			}
 		}
-		drawObserved := func(c *mconn, class int) (ma.Multiaddr, string) {
+		observedAt := func(c *mconn, class, ipi, pi int) (ma.Multiaddr, string) {
 			v6, udp := c.lw.v6, c.lw.udp
-			ip := extIPs[v6][g.Weighted(6, 2, 1)]
-			port := extPorts[g.Weighted(6, 2, 1, 1)]
+			ip := extIPs[v6][ipi]
+			port := extPorts[pi]
 			upper := kindUpper[c.kind]
 			switch class {
 			case oOtherUpper:
@@ -746,9 +799,14 @@ func run(t *testing.T, tape *simrt.Tape) *common.Outcome {
 			}
 			return ma.StringCast(s), x.String()
 		}
+		drawObserved := func(c *mconn, class int) (ma.Multiaddr, string) {
+			ipi := g.Weighted(6, 2, 1)
+			return observedAt(c, class, ipi, g.Weighted(6, 2, 1, 1))
+		}
 		lastEventConn := -1
-		identify := func(c *mconn, class int) {
-			obs, x := drawObserved(c, class)
+		// report: identify completes on c with an observed address drawn beforehand (no draw happens in here, so
+		// it can run in a task of its own)
+		report := func(c *mconn, class int, obs ma.Multiaddr, x string) {
 			o.Logf("identify c%d observed=%v (%s)%s", c.id, obs, obsClassName[class], map[bool]string{true: "", false: " [connection already closed]"}[c.open])
 			countable := class == oConsistent || class == oOtherUpper
 			if countable && c.eligible {
@@ -793,6 +851,10 @@ func run(t *testing.T, tape *simrt.Tape) *common.Outcome {
 				o.Trouble = "emit: " + err.Error()
 			}
 		}
+		identify := func(c *mconn, class int) {
+			obs, x := drawObserved(c, class)
+			report(c, class, obs, x)
+		}
 		disconnect := func(c *mconn) {
 			o.Logf("close c%d", c.id)
 			if c.vote != "" {
@@ -801,12 +863,12 @@ func run(t *testing.T, tape *simrt.Tape) *common.Outcome {
 			if burst && lastEventConn == c.id {
 				o.Probe("close-right-after-identify")
 			}
-			c.open = false
 			fmt.Fprintf(sig, "D%d;", c.id)
 			c.stub.closed.Store(true) // the swarm marks the connection closed, then notifies
 			for _, nf := range append([]network.Notifiee(nil), sn.notifiees...) {
 				nf.Disconnected(sn, c.stub)
 			}
+			c.open = false // only now: until Disconnected has returned the Manager may still count it
 		}
 		openConns := func() []*mconn {
 			var l []*mconn
@@ -833,7 +895,7 @@ func run(t *testing.T, tape *simrt.Tape) *common.Outcome {
 			if o.Trouble != "" {
 				return
 			}
-			if !burst {
+			if stratum == 0 {
 				simrt.WaitIdle()
 				compare(at, true)
 				return
@@ -901,9 +963,147 @@ func run(t *testing.T, tape *simrt.Tape) *common.Outcome {
 			}
 		}
 
-		if !burst {
+		// raceEpisode: identify-completed for a connection and the close of that same connection are issued back
+		// to back from two tasks (1-3 such pairs on different connections, optionally a third task reading
+		// Addrs/AddrsFor meanwhile). With the instrumented build every lock, channel operation and stub callback
+		// of the Manager is a scheduling point, so the schedule stream decides e.g. whether the closer runs
+		// between the worker's checks and its locked write. On purpose the pair's (local, observed) address is
+		// first brought to threshold-1 live observer groups, so that one wrongly kept observer activates it.
+		// Whatever the interleaving, at quiescence the connection is closed and must not count.
+		type actor struct {
+			c                *mconn
+			class            int
+			obs              ma.Multiaddr
+			x                string
+			doReport, doClose bool
+			preR, preC       int
+		}
+		raceEpisode := func(i int) {
+			at := fmt.Sprintf("race@op%d", i)
+			var actors []*actor
+			taken := map[int]bool{}
+			for p, nPairs := 0, g.Range(1, 3); p < nPairs; p++ {
+				a := &actor{}
+				var cands []*mconn
+				for _, c := range openConns() {
+					if c.eligible && !taken[c.id] {
+						cands = append(cands, c)
+					}
+				}
+				if len(cands) > 0 && g.Chance(1, 3) {
+					// a connection that may already vouch for something: replacement against close
+					a.c = cands[g.Int(len(cands))]
+					a.class = drawClass()
+					a.obs, a.x = drawObserved(a.c, a.class)
+				} else {
+					e := pickEntry()
+					lw := e.w
+					if e.ifaceIP != "" && g.Bool() {
+						lw.ip = e.ifaceIP
+					}
+					ipi, pi := g.Weighted(6, 2, 1), g.Weighted(6, 2, 1, 1)
+					x := tw{lw.v6, extIPs[lw.v6][ipi], lw.udp, extPorts[pi]}.String()
+					have := map[string]bool{}
+					for _, c := range m.conns {
+						if c.open && c.eligible && c.lwKey == lw.String() && c.ever[x] {
+							have[c.group] = true
+						}
+					}
+					var free []int
+					ng := nGroups(lw.v6)
+					for k, start := 0, g.Int(ng); k < ng; k++ {
+						if gi := (start + k) % ng; !have[groupName(lw.v6, gi)] {
+							free = append(free, gi)
+						}
+					}
+					if len(free) == 0 {
+						continue // every group already vouches for it
+					}
+					racer := free[0]
+					free = free[1:]
+					for len(have) < thresh-1 && len(free) > 0 {
+						f := openConn(e, lw, free[0], "inbound")
+						obs, fx := observedAt(f, oConsistent, ipi, pi)
+						report(f, oConsistent, obs, fx)
+						have[f.group] = true
+						free = free[1:]
+					}
+					if len(have) == thresh-1 {
+						o.Probe("race-at-threshold-minus-1")
+					}
+					a.c = openConn(e, lw, racer, "inbound")
+					a.class = g.Weighted(6, 1) // consistent | sibling transport of the waist
+					a.obs, a.x = observedAt(a.c, a.class, ipi, pi)
+				}
+				taken[a.c.id] = true
+				switch g.Weighted(6, 1, 1) {
+				case 0:
+					a.doReport, a.doClose = true, true
+				case 1:
+					a.doReport = true
+				case 2:
+					a.doClose = true
+				}
+				a.preR, a.preC = g.Int(3), g.Int(3)
+				actors = append(actors, a)
+			}
+			reader := g.Chance(1, 3)
+			simrt.WaitIdle() // the filler reports are recorded
+			var wg simsync.WaitGroup
+			for ai, a := range actors {
+				if a.doReport {
+					wg.Add(1)
+					simrt.GoNamed(fmt.Sprintf("identify%d", ai), func() {
+						defer wg.Done()
+						for k := 0; k < a.preR; k++ {
+							simrt.Yield("race.pre")
+						}
+						report(a.c, a.class, a.obs, a.x)
+					})
+				}
+				if a.doClose {
+					wg.Add(1)
+					simrt.GoNamed(fmt.Sprintf("closer%d", ai), func() {
+						defer wg.Done()
+						for k := 0; k < a.preC; k++ {
+							simrt.Yield("race.pre")
+						}
+						disconnect(a.c)
+					})
+				}
+				if a.doReport && a.doClose {
+					o.Probe("identify-vs-close-race")
+				}
+			}
+			if reader {
+				wg.Add(1)
+				simrt.GoNamed("reader", func() {
+					defer wg.Done()
+					simrt.Yield("race.pre")
+					compare(at+"(mid-race)", false)
+				})
+			}
+			wg.Wait()
+			simrt.WaitIdle()
+			compare(at, false)
+		}
+
+		if stratum == 0 {
 			for i := 0; i < nOps && o.Trouble == "" && len(o.Violations) == 0; i++ {
 				step(i)
+			}
+		} else if race {
+			for i := 0; i < nOps && o.Trouble == "" && len(o.Violations) == 0; {
+				// prelude: a few operations by the main task, unpaced, to vary the state the race starts from
+				n := g.Range(0, 6)
+				inBurst = true
+				for j := 0; j < n; j++ {
+					step(i)
+					i++
+				}
+				inBurst = false
+				raceEpisode(i)
+				i += 3
 			}
 		} else {
 			for i := 0; i < nOps && o.Trouble == "" && len(o.Violations) == 0; {
